@@ -177,13 +177,92 @@ func resolveRoles(w *World) *roles {
 		case recv == "provider" && storesSingle:
 			ro.setSingleton = fi
 		case recv == "scope" && readsCache && !hasSwitch:
-			ro.getInstance = fi
+			// the pure lookup: (key) (any, bool), writes nothing
+			sig := fi.Obj.Type().(*types.Signature)
+			pure := sig.Results().Len() == 2 && !storesCache
+			if b, ok := sig.Results().At(sig.Results().Len() - 1).Type().Underlying().(*types.Basic); !ok || b.Info()&types.IsBoolean == 0 {
+				pure = false
+			}
+			if ro.getInstance == nil || pure {
+				ro.getInstance = fi
+			}
 		case recv == "provider" && loadsSingle && !callsTopo:
 			ro.getSingleton = fi
 		case recv == "provider" && callsTopo:
 			ro.createAll = fi
 		case recv == "scope" && rangesInit && fi.Obj.Name() != "Close":
 			ro.runInits = fi
+		}
+	}
+	// setInstance / setSingleton when caching and tracking were split into several functions:
+	// the role is the function that reaches the append to the owner's disposal list
+	{
+		tracks := func(fi *FuncInfo, owner string) bool {
+			for _, g := range w.Within(fi, 2) {
+				if g != fi && lifetimeDispatch(w, g).dispatches() {
+					continue
+				}
+				found := false
+				ast.Inspect(g.Decl.Body, func(n ast.Node) bool {
+					if as, ok := n.(*ast.AssignStmt); ok {
+						for i, l := range as.Lhs {
+							fv := fieldOf(g.Pkg.TypesInfo, l)
+							if fv == nil || i >= len(as.Rhs) || ownerOfFieldRaw(w, fv) != owner {
+								continue
+							}
+							if sl, ok := fv.Type().Underlying().(*types.Slice); ok && isNamedType(sl.Elem(), modPath, "Disposable") {
+								if c, ok := unparen(as.Rhs[i]).(*ast.CallExpr); ok && exprStr(c.Fun) == "append" {
+									found = true
+								}
+							}
+						}
+					}
+					return !found
+				})
+				if found {
+					return true
+				}
+			}
+			return false
+		}
+		for _, fi := range w.FuncsOf(w.Godi) {
+			if recvIs(fi, "scope") && fi != ro.createInstance && lifetimeDispatch(w, fi).dispatches() && tracks(fi, "scope") {
+				callsInvoke := false
+				for _, c := range callsIn(fi.Decl.Body, true) {
+					if cal := callee(fi.Pkg.TypesInfo, c); cal != nil && recvNamed(cal) != nil && recvNamed(cal).Obj().Name() == "ConstructorInvoker" {
+						callsInvoke = true
+					}
+				}
+				if !callsInvoke {
+					ro.setInstance = fi
+				}
+			}
+		}
+		// the provider method that stores a singleton and tracks it
+		var storeFns []*FuncInfo
+		for _, fi := range w.FuncsOf(w.Godi) {
+			if !recvIs(fi, "provider") {
+				continue
+			}
+			for _, g := range w.Within(fi, 2) {
+				if g != fi && !recvIs(g, "provider") {
+					continue
+				}
+				stores := false
+				for _, c := range callsIn(g.Decl.Body, true) {
+					if r2, _, ok := methodCall(c); ok && fieldOf(g.Pkg.TypesInfo, r2) == ro.singletons {
+						if cal := callee(g.Pkg.TypesInfo, c); cal != nil && (cal.Name() == "Store" || cal.Name() == "LoadOrStore" || cal.Name() == "Swap") {
+							stores = true
+						}
+					}
+				}
+				if stores && tracks(fi, "provider") {
+					storeFns = append(storeFns, fi)
+				}
+			}
+		}
+		if len(storeFns) >= 1 {
+			ro.setSingleton = storeFns[0]
 		}
 	}
 	// the invoker call may live in a private helper (invokeConstructor): the core
@@ -212,7 +291,11 @@ func resolveRoles(w *World) *roles {
 					continue
 				}
 				sig := fi.Obj.Type().(*types.Signature)
-				if !types.Identical(sig.Params(), coreSig.Params()) || !types.Identical(sig.Results(), coreSig.Results()) {
+				// a wrapper hands back what the core produced: same results, and it is given the descriptor
+				if !types.Identical(sig.Results(), coreSig.Results()) || descriptorParam(fi) == nil {
+					continue
+				}
+				if fi == ro.setSingleton || fi.Obj.Name() == "Close" {
 					continue
 				}
 				for _, c := range callsIn(fi.Decl.Body, true) {
